@@ -38,6 +38,10 @@ def check(ctx, pcirc, mons, sweep, exc, replay, lossless=False):
         for c in mons:
             sol.monitor_structure(sts[c], name=f"M{c}")
         kw = {"pa": np.array([float(x) for x in sweep])} if ns > 1 else {"pa": float(sweep[0])}
+        if ns > 1 and (len(pcirc["comps"]) + len(mons)) % 2 == 0:
+            # a second keyword of length one next to the sweep (a constant given as a one-element array): it is broadcast along
+            # the sweep in the solve and in the columns of the monitor table
+            kw["zz"] = np.array([0.25])
         mod = sol.solve(**kw)
         Tm = impl.solved_matrix(mod, names)
         tab_a = mod.get_monitor(dict(exc), power=False)
@@ -57,6 +61,14 @@ def check(ctx, pcirc, mons, sweep, exc, replay, lossless=False):
             exp_keys.add((a, p))
         if b in mons and a not in mons:
             exp_keys.add((b, q))
+    # the rows are labelled by the sweep: the parameter columns of the table are the values of the solve, point by point
+    if ns > 1:
+        for tab in (tab_a, tab_p):
+            for nm, vals in kw.items():
+                want_col = np.broadcast_to(np.asarray(vals, float).reshape(-1), (ns,))
+                if nm not in tab.columns or not np.allclose(np.asarray(tab[nm], float), want_col, rtol=0, atol=1e-12):
+                    ctx.violation("C10:table-labels", f"the column {nm} of the monitor table is not the sweep of the solve (rows would be attributed to the wrong point)", replay)
+                    return False
     cols = {c for c in tab_a.columns if c.endswith("_i") or c.endswith("_o")}
     want = {f"M{c}_{p}_{s}" for (c, p) in exp_keys for s in ("i", "o")}
     if cols != want:
